@@ -4590,7 +4590,9 @@ def read_type_map(data: ReadBuffer) -> dict[str, Type]:
 def write_type_map(data: WriteBuffer, value: dict[str, Type]) -> None:
     write_tag(data, DICT_STR_GEN)
     write_int_bare(data, len(value))
-    for key in sorted(value):
+    # Preserve the order of items (like the JSON format does). It is significant, for
+    # example, for TypedDict items (it shows in messages and in constructor signatures).
+    for key in value:
         write_str_bare(data, key)
         value[key].write(data)
 
